@@ -119,7 +119,8 @@ class CacheSim:
                 i = list(path).index("_cache") if "_cache" in path else -1
                 # only entries of the memo dict count (`_cache[key]`); fields of the Cache object itself
                 # (id_current, _lock, the dict being replaced by clear()) are protocol state, modelled by events
-                if i >= 0 and i + 1 < len(path) and path[i + 1].startswith("["):
+                if i >= 0 and i + 1 < len(path) and path[i + 1].startswith("[") and (root, path) in s.explicit_memo:
+                    # only unconditional assignments refresh an entry; the fill-on-miss of a cached getter keeps whatever is there
                     key = path[i + 1]
                     fx.memo_stores.add(key.strip("[]") if key != "[*]" else "*")
                 continue
@@ -433,6 +434,14 @@ class CacheSim:
             stale_exempt |= set(fx.memo_stores) | set(fx.memo_reads)
             if fx.data_writes and not verified and unverified is None and not inl:
                 unverified = f"write at `{fx.text}`"
+            if fx.data_writes and fx.memo_reads and inl and self._is_call_stmt(st):
+                # a callee that writes hashed data and reads memo entries under the caller's lock: inside it the reads may
+                # come after the write (its own statement order is not visible here), so an entry that may predate the
+                # write can be served stale within the call
+                for k in fx.memo_reads:
+                    may = (stale_restrict is None or k in stale_restrict) and k not in fx.memo_stores
+                    if may:
+                        stale_reads.add((k, tuple(sorted({w[0] for w in fx.data_writes})), fx.text))
             if fx.data_writes:
                 pending.extend(fx.data_writes)
                 if inl:
@@ -447,6 +456,10 @@ class CacheSim:
             "stored": stored, "preserved": preserved, "stale_reads": stale_reads, "unknown_exclude": unknown_exclude, "trace": trace,
             "unverified": unverified, "explicit": explicit,
         }
+
+    @staticmethod
+    def _is_call_stmt(st):
+        return isinstance(st, ast.Expr) and isinstance(st.value, ast.Call) or (isinstance(st, ast.Assign) and isinstance(st.value, ast.Call))
 
     def _direct_dict_store(self, st):
         """`owner._cache.cache[k] = v` bypasses Cache.__setitem__ (no verify)"""
